@@ -239,6 +239,38 @@ def probe(res, asyn, cfg):
         res.stats["states"] += 1
 
 
+def order_machine():
+    """Class-level registration order of the events (e1 first: it is met on s1, declared first)
+    differs from the order of the transitions leaving s0 (e2 first): allowed_events follows the
+    state's transitions."""
+    return M(states=(S("s1"), S("s0", initial=True), S("s2")),
+             trans=(T("s0", "s1", ("e2",)), T("s0", "s0", ("e1",)), T("s1", "s0", ("e1",)),
+                    T("s1", "s2", ("e3", "e2")), T("s2", "s0", ("e3",)), T("s2", "s1", ("e1",))),
+             provided=(("sm", "after_transition", ""),))
+
+
+def order_probe(res, cfg):
+    built = build(order_machine())
+    p = Pair(built, cfg)
+    r = p.construct()
+    if r is None and cfg.engine == "async":
+        r = p.activate()
+    for st in ("s0", "s1", "s2"):
+        if r:
+            break
+        r = p.install(st) or p.check_views()
+        res.stats["transitions"] += 1
+        for ev in ("e1", "e2", "e3"):
+            if r:
+                break
+            r = p.install(st) or p.send(ev, {}, tag=None) or p.check_views()
+            res.stats["transitions"] += 1
+    res.hist["order-probe"] += 1
+    if r:
+        res.violation({"category": "allowed-events-order", "engine": cfg.engine},
+                      {"order_probe": True, "cfg": list(cfg)}, f"order machine: {r}")
+
+
 def _cat(msg):
     for key in ("allowed_events", "events:", "stored state", "exception", "outcome kind", "result",
                 "trace", "dirty", "current_state", "listed"):
@@ -253,6 +285,8 @@ def worker(block):
         _, asyn, cfg = block
         with deadline(120):
             probe(res, asyn, Cfg(*cfg))
+            if not asyn:
+                order_probe(res, Cfg(*cfg))
         return res
     tier, lo, hi = block
     for (label, cs) in machines(tier)[lo:hi]:
@@ -296,6 +330,10 @@ def run(tier, seed):
 
 def replay(sc):
     cfg = Cfg(*sc["cfg"])
+    if sc.get("order_probe"):
+        res = BlockResult()
+        order_probe(res, cfg)
+        return res.violations[0]["message"] if res.violations else None
     if sc.get("probe"):
         m = probe_machine(sc.get("asyn", False))
         built = build(m, extra_ns=probe_extra_ns())
